@@ -47,7 +47,7 @@ def c06(chk, thorough):
         'non-thread-local, non-atomic global outside a mutex region; (W1) the RNG state is touched only by the RNG API; '
         '(T2) every RNG draw in a worker is dominated, inside that worker, by srand_ with a seed derived from the worker '
         'argument; (T3) every dispatch region joins exactly the threads it created, after creating them, before freeing '
-        'or reading their arguments; (T5) the bootstrap seed is schedule-invariant (same coefficient for worker index and '
+        'or reading their arguments; (T8) seeding entry functions are started only through pthread_create; (T5) the bootstrap seed is schedule-invariant (same coefficient for worker index and '
         'batch counter, no dependence on the thread count). NOT decided: bit-identity of floating results, rounding-level '
         'equality of averages across thread counts, OS scheduling.')
     chk.assumptions = ['pthread_create/pthread_join are the only thread primitives (re-checked: any other pthread_* call is listed)',
